@@ -96,7 +96,11 @@ _COORDS = np.array(
 
 _PRIMERS = ("vertex_adjacency_graph", "edges_sparse", "faces_sparse", "face_adjacency", "edges_unique",
             "vertex_faces", "face_neighborhood", "face_adjacency_edges", "edges_sorted", "referenced_vertices",
-            "vertex_neighbors", "vertex_degree", "face_adjacency_unshared", "edges_unique_inverse")
+            "vertex_neighbors", "vertex_degree", "face_adjacency_unshared", "edges_unique_inverse",
+            # values that are not topological themselves but are computed THROUGH the cached
+            # topological helpers (sparse incidence, adjacency) and may leave them altered
+            "vertex_normals", "face_normals", "vertex_defects", "face_adjacency_angles", "euler_number",
+            "is_watertight", "face_angles_sparse", "body_count", "facets", "face_adjacency_convex")
 
 
 class UF:
@@ -414,7 +418,31 @@ def check_mesh(run, tag, F, nv, V=None, closed=False, facets=False, split_defaul
 
     check_free_edges(J, R, F)
 
-    m = trimesh.Trimesh(vertices=V.copy(), faces=F.copy(), process=False)
+    # How the mesh came to hold these faces is varied from case to case (chosen from the face array
+    # so that a replay repeats it): built directly, or built with every face reversed, queried
+    # (cache warm) and then turned into F by the library's own invert() - answers cached for the
+    # reversed faces must not leak into the answers for F
+    h0 = (int(F.sum()) * 40503 + n * 2654435761 + nv * 131) & 0xFFFFFFFF
+    arrival = "direct"
+    if n and (h0 >> 4) % 3 == 0:
+        arrival = "inverted_warm"
+        m = trimesh.Trimesh(vertices=V.copy(), faces=np.ascontiguousarray(F[:, ::-1]), process=False)
+        for name in (_PRIMERS[(h0 >> 9) % len(_PRIMERS)], _PRIMERS[(h0 >> 15) % len(_PRIMERS)]):
+            try:
+                getattr(m, name)
+            except BaseException:
+                pass
+        try:
+            m.invert()
+        except BaseException:
+            arrival = "direct"
+        if arrival == "direct" or not np.array_equal(np.asarray(m.faces), F):
+            arrival = "direct"
+            m = trimesh.Trimesh(vertices=V.copy(), faces=F.copy(), process=False)
+    else:
+        m = trimesh.Trimesh(vertices=V.copy(), faces=F.copy(), process=False)
+    run.state("arrival", arrival)
+    run.count("arrival:" + arrival)
 
     # ---- edges
     def edges():
